@@ -307,7 +307,7 @@ func applyBytes(t *rapid.T, kind string, in []byte, o Opts) ([]byte, bool) {
 
 // CBORKinds lists the CBOR-aware mutation kinds.
 var CBORKinds = []string{"len-huge", "len-indef", "len-off", "nest", "dup-key", "tag", "retype", "int-arg", "drop-elem", "dup-elem", "swap-elem",
-	"splice-item", "const-item", "str-resize", "str-bytes", "nested-bstr"}
+	"splice-item", "const-item", "str-resize", "str-bytes", "nested-bstr", "recode"}
 
 // cborKindDraw biases the draw towards mutations that keep the document well typed (values,
 // string contents, element lists), so that a good share of the mutants gets past the outer decoder.
@@ -385,6 +385,8 @@ func cborDepth(t *rapid.T, in []byte, o Opts, rec int) ([]byte, string, bool) {
 			ok = (it.Major == 4 && len(it.Kids) >= 2) || (it.Major == 5 && len(it.Kids) >= 4)
 		case "str-resize", "str-bytes":
 			ok = (it.Major == 2 || it.Major == 3) && !it.Indef && (kind == "str-resize" || it.End > it.HeadEnd)
+		case "recode":
+			ok = !it.Indef && ((it.Major == 2 || it.Major == 3) && it.End-it.HeadEnd <= 128 || it.Major == 0)
 		case "nested-bstr":
 			if it.Major == 2 && !it.Indef && it.End-it.HeadEnd >= 1 && rec < 3 {
 				c := in[it.HeadEnd:it.End]
@@ -608,6 +610,46 @@ func cborDepth(t *rapid.T, in []byte, o Opts, rec int) ([]byte, string, bool) {
 			nb = cat(body, rep(pick(t, "rb", specialBytes), pick(t, "rn", []int{31, 32, 33, 64, 1024, 16384})))
 		}
 		repl = cat(Head(it.Major, uint64(len(nb))), nb)
+	case "recode":
+		// the same information under another major type (schema checks that only look at one form)
+		switch it.Major {
+		case 0:
+			var be [8]byte
+			binary.BigEndian.PutUint64(be[:], it.Arg)
+			i := 0
+			for i < 7 && be[i] == 0 {
+				i++
+			}
+			if intn(t, "rcint", 0, 1) == 0 {
+				repl = Bstr(be[i:])
+			} else {
+				repl = append(Head(3, uint64(8-i)), be[i:]...)
+			}
+		default:
+			switch intn(t, "rcstr", 0, 3) {
+			case 0, 1: // array of small integers, optionally with one element changed
+				nb := clone(body)
+				if len(nb) > 0 && intn(t, "rcflip", 0, 1) == 0 {
+					nb[intn(t, "rcpos", 0, min(len(nb)-1, 7))] ^= 1 << uint(intn(t, "rcbit", 0, 7))
+				}
+				switch intn(t, "rclen", 0, 5) {
+				case 0:
+					if len(nb) > 0 {
+						nb = nb[:len(nb)-1]
+					}
+				case 1:
+					nb = append(nb, 0x01)
+				}
+				repl = Head(4, uint64(len(nb)))
+				for _, c := range nb {
+					repl = append(repl, Head(0, uint64(c))...)
+				}
+			case 2: // bytes <-> text
+				repl = cat(Head(it.Major^1, uint64(len(body))), body)
+			default: // one-element array holding the string
+				repl = cat([]byte{0x81}, raw)
+			}
+		}
 	case "str-bytes":
 		nb, bk := Bytes(t, body, Opts{MaxLen: o.maxLen(), Others: o.Others})
 		kind = "str-bytes:" + bk
